@@ -174,7 +174,7 @@ def family_scen(max_steps=3, quick=False):
             for rbg in ((None,) if not with_rule else (None, "pass", "error")):
                 shapes.append((with_rule, fbg, rbg))
     for with_rule, fbg, rbg in shapes:
-        for n in range(1, max_steps + 1):
+        for n in range(0, max_steps + 1):       # (n = 0: a scenario without steps)
             for seq in outcome_sequences(n):
                 for wip in (False, True):
                     if wip and "pending" not in seq:
@@ -206,7 +206,7 @@ def family_tree(rnd, n, quick=False):
             for _ in range(rnd.randint(1, 2)):
                 blocks.append((rtags(0.3), [[rnd.choice(outcomes) for _ in range(nst)] for _ in range(rnd.randint(1, 2))]))
             return outline(blocks, rtags(0.3), ptag=rnd.random() < 0.3)
-        return scenario([rnd.choice(outcomes) for _ in range(rnd.randint(1, 2))], rtags())
+        return scenario([rnd.choice(outcomes) for _ in range(0 if rnd.random() < 0.1 else rnd.randint(1, 2))], rtags())
 
     def routline():
         nst = rnd.randint(1, 2)
